@@ -50,8 +50,19 @@ func genCase(t *rapid.T) Case {
 		MaxItems: 2048, MaxOps: 16, LDS: true, Partial: true, UniqueStores: true,
 		Exit: rapid.Bool().Draw(t, "exits"),
 		Comm: rapid.IntRange(0, 3).Draw(t, "comm") > 0,
+		// bursts of back-to-back scalar loads (up to 24 outstanding per wavefront) fill the scalar
+		// unit's request buffer when many wavefronts are resident
+		SBurst: rapid.Bool().Draw(t, "sbursts"),
 	}
-	switch rapid.IntRange(0, 4).Draw(t, "shape") {
+	switch rapid.IntRange(0, 5).Draw(t, "shape") {
+	case 5:
+		// four compute units behind one scalar cache, 24-40 resident wavefronts each, every
+		// wavefront starting with up to 24 back-to-back scalar loads: the scalar unit's
+		// 16-entry request buffer is full when further loads reach it
+		c.CUPerSA, c.SAs = 4, 1
+		groups := rapid.IntRange(24, 40).Draw(t, "groups")
+		opts.FixedGeo = &kgen.Geometry{Grid: [3]uint32{uint32(256 * groups), 1, 1}, WG: [3]uint16{256, 1, 1}}
+		opts.Partial, opts.MaxOps, opts.MaxValues, opts.LeadSBurst, opts.SBurst = false, 6, 8, true, true
 	case 0, 4:
 		// one compute unit, 5-10 resident groups of 256 work-items that communicate through barriers:
 		// more wavefronts wait at barriers than the scheduler's barrier buffer holds
